@@ -129,6 +129,7 @@ class Store:
     def declare(self, sym, lo=None, hi=None, info=None):
         if sym not in self.iv:
             self.iv[sym] = [lo, hi]
+            self.__dict__.setdefault('decl', {})[sym] = (lo, hi)
         else:
             cur = self.iv[sym]
             if lo is not None and (cur[0] is None or lo > cur[0]):
@@ -468,6 +469,7 @@ class Store:
         st.cons = list(self.cons)
         st.sub = dict(self.sub)
         st.info = dict(self.info)
+        st.__dict__['decl'] = dict(self.__dict__.get('decl', {}))
         return st
 
 
